@@ -534,7 +534,7 @@ func execLife(o *Out, id, line string) {
 			if typ == "bzip2" && lvl >= 1 && lvl <= 9 {
 				o.Violate("C04", "NewWriter refused a valid level", "level-refused", line)
 			}
-			o.Emit(id, line, "", "refused", typ+"refused"+kv["level"])
+			o.Emit(id, line, fmt.Sprintf("lwm id=%s t=%s level=%d final=%d sink=%s ops=-", id, typ, lvl, final, kv["sink"]), "refused", typ+"refused"+kv["level"])
 			return
 		}
 		if typ == "bzip2" && (lvl < 0 || lvl > 9) {
@@ -542,6 +542,14 @@ func execLife(o *Out, id, line string) {
 		}
 		var accepted []byte
 		var trace []string
+		var res []string // per call: what the API-level model (kind lwm) must reproduce
+		totalIn := 0
+		counters := func() string {
+			if typ == "bzip2" {
+				return fmt.Sprintf("%d:%d", bz.InputOffset, bz.OutputOffset)
+			}
+			return fmt.Sprintf("%d:%d:%d", mwv.InputOffset, mwv.OutputOffset, mwv.NumBlocks)
+		}
 		closedOK, anyErr, latched := false, false, false
 		for _, op := range strings.Split(kv["ops"], "|") {
 			f := strings.SplitN(op, ":", 2)
@@ -558,6 +566,8 @@ func execLife(o *Out, id, line string) {
 					return
 				}
 				trace = append(trace, fmt.Sprintf("W=%d,%s", n, errClass(e)))
+				res = append(res, fmt.Sprintf("W:%d:%s:%s", n, errClass(e), counters()))
+				totalIn += len(d)
 				if n >= 0 && n <= len(d) {
 					accepted = append(accepted, d[:n]...)
 				}
@@ -581,6 +591,7 @@ func execLife(o *Out, id, line string) {
 					return
 				}
 				trace = append(trace, "C="+errClass(e))
+				res = append(res, fmt.Sprintf("C:%s:%s", errClass(e), counters()))
 				if closedOK && (e != nil || len(cur.got) != before) {
 					o.Violate("C18", typ+": second Close returned an error or emitted bytes", "close-idempotent", line)
 				}
@@ -608,6 +619,7 @@ func execLife(o *Out, id, line string) {
 					return
 				}
 				trace = append(trace, "Z")
+				res = append(res, fmt.Sprintf("Z:%s:%s", hx(cur.got), counters()))
 				accepted, closedOK, anyErr, latched = nil, false, false, false
 			}
 			if typ == "bzip2" {
@@ -670,7 +682,15 @@ func execLife(o *Out, id, line string) {
 			}
 		}
 		o.Count("lw-" + typ)
-		o.Emit(id, line, "", strings.Join(trace, "|"), typ+kv["ops"][:min(len(kv["ops"]), 80)]+kv["sink"]+kv["level"])
+		// the API-level models take part unless the scenario is too big for the rotation-sort BWT of the
+		// Lean model (about 15 s per full 100000-byte block); model=1 forces, model=0 forbids
+		scn := ""
+		if (totalIn <= 20000 || kv["model"] == "1") && kv["model"] != "0" {
+			scn = fmt.Sprintf("lwm id=%s t=%s level=%d final=%d sink=%s ops=%s", id, typ, lvl, final, kv["sink"], kv["ops"])
+			o.Count("lw-model-" + typ)
+		}
+		res = append(res, "sink="+hx(last.got))
+		o.Emit(id, line, scn, strings.Join(res, "|"), typ+kv["ops"][:min(len(kv["ops"]), 80)]+kv["sink"]+kv["level"])
 	}
 }
 
